@@ -570,7 +570,7 @@ class Deps:
                 if rv['k'] in ('ref', 'rawptr', 'discr'):
                     self.direct[l] |= self._tokens_of_place(rv['p'])
                 if rv['k'] == 'binop':
-                    self.direct[l].add(('op', rv['op']))
+                    self.direct[l].add(('op', rv['op'].replace('WithOverflow', '').replace('Unchecked', '')))
                 if rv['k'] == 'agg' and rv.get('ak') == 'closure':
                     self.direct[l].add(('closure', rv['def']))
                 if rv['k'] == 'agg' and rv.get('ak') == 'adt':
